@@ -273,8 +273,8 @@ class Same(object):
     """Equality of two values up to re-association / commutation of sums (A2) and propositional
     equivalence of presence flags."""
 
-    def __init__(self, ev):
-        self.A = alg.Algebra()
+    def __init__(self, ev, A=None):
+        self.A = A or alg.Algebra()
         self.ev = ev
         self.cache = {}
 
@@ -651,8 +651,9 @@ def h2b(ctx, rep, entries):
     """Unrolled loops over finite enum-keyed maps and sets (hash order at run time): the state after the
     loop run forwards and backwards from the same state must be the same value."""
     total = 0
+    A_shared = alg.Algebra()
     for ename, ev, r, where in entries:
-        S = Same(ev)
+        S = Same(ev, A_shared)
         loops = getattr(ev, "order_loops", [])
         total += len(loops)
         bad = {}
